@@ -514,3 +514,174 @@ pub fn c33(ctx: &mut Ctx) {
     ctx.assumptions.push("deposit transactions carry gas price 0 (OP-stack deposits are paid on L1); Optimism has no blob transactions; total supply < 2^255; L1 attributes are bounded (fees < 2^38, scalars < 2^32) so that no saturating multiplication of the L1 cost is reached".into());
     ctx.assumptions.push("from Fjord the L1 data fee depends on a FastLZ length estimate for which no independent implementation is available offline: only its bounds and the identity 'sender debit == sum of credits' are checked there".into());
 }
+
+// ------------------------------------------------------------------------------------------
+// C22 on Optimism: without rewards neither the beneficiary nor the three fee vaults are paid,
+// whatever reconfiguration follows
+// ------------------------------------------------------------------------------------------
+
+#[derive(Clone, Debug, Hash, Serialize, Deserialize)]
+pub enum OpReconf {
+    WithSpecId(u8),
+    ModifySpecId(u8),
+    AppendNoop,
+    AppendInspector,
+    Pop,
+    ModifyBuild,
+    CreateGeneric,
+}
+
+#[derive(Clone, Debug, Hash, Serialize, Deserialize)]
+pub struct OpRewardCase {
+    pub case: OpCase,
+    pub steps: Vec<OpReconf>,
+}
+
+fn noop_register<EXT, DB: revm::Database>(_h: &mut revm::handler::register::EvmHandler<'_, EXT, DB>) {}
+
+fn run_op_reward(c: &OpRewardCase, rewards: bool) -> Result<(ResultAndState, SpecId), String> {
+    use revm::Handler;
+    let (spec0, pre, block, tx) = build(&c.case);
+    let mut handler: Handler<'_, revm::Context<revm::inspectors::NoOpInspector, ModelDB>, revm::inspectors::NoOpInspector, ModelDB> = Handler::optimism_with_spec(spec0, rewards);
+    let mut cur = spec0;
+    // only specs of the same L1 rule set keep the generated transaction valid
+    let same_family = |i: u8| -> SpecId {
+        let fam: &[SpecId] = match c.case.op_spec % 8 {
+            0 | 1 => &[SpecId::BEDROCK, SpecId::REGOLITH],
+            2 => &[SpecId::CANYON],
+            3..=6 => &[SpecId::ECOTONE, SpecId::FJORD, SpecId::GRANITE, SpecId::HOLOCENE],
+            _ => &[SpecId::ISTHMUS],
+        };
+        fam[i as usize % fam.len()]
+    };
+    for s in &c.steps {
+        match s {
+            OpReconf::ModifySpecId(i) => {
+                cur = same_family(*i);
+                handler.modify_spec_id(cur);
+            }
+            OpReconf::AppendNoop => handler.append_handler_register_plain(noop_register),
+            OpReconf::AppendInspector => handler.append_handler_register_plain(revm::inspector_handle_register),
+            OpReconf::Pop => {
+                // popping the Optimism register itself would turn the handler into a mainnet one: only pop what was appended
+                if handler.registers.len() > 1 {
+                    handler.pop_handle_register();
+                }
+            }
+            OpReconf::CreateGeneric => {
+                handler = revm::primitives::spec_to_generic!(cur, handler.create_handle_generic::<SPEC>());
+                handler.cfg.spec_id = cur;
+            }
+            _ => {}
+        }
+    }
+    let env = op_env(spec0, &block, &tx, &c.case.kind, None);
+    let mut evm = Evm::builder().with_db(ModelDB::new(pre)).with_external_context(revm::inspectors::NoOpInspector).with_env(Box::new(env)).with_handler(handler).build();
+    for s in &c.steps {
+        match s {
+            OpReconf::WithSpecId(i) => {
+                cur = same_family(*i);
+                evm = evm.modify().with_spec_id(cur).build();
+            }
+            OpReconf::ModifyBuild => evm = evm.modify().build(),
+            _ => {}
+        }
+    }
+    *evm.block_mut() = block_env(cur, &block);
+    evm.transact().map(|r| (r, cur)).map_err(|e| format!("{e:?}"))
+}
+
+pub fn c22_op_case(c: &OpRewardCase) -> CaseResult {
+    let (spec, pre, block, tx) = build(&c.case);
+    let _ = spec;
+    if total_supply(&pre).bits() > 255 {
+        return Ok(Outcome::trivial().label("excluded:supply-near-2^256"));
+    }
+    let on = run_op_reward(c, true);
+    let off = run_op_reward(c, false);
+    let ((on, s1), (off, s2)) = match (on, off) {
+        (Ok(a), Ok(b)) => (a, b),
+        (Err(a), Err(b)) => {
+            ensure!(a == b, "C22|op|rejection-differs", "rewards on: {a}; rewards off: {b}");
+            return Ok(Outcome::trivial().label("rejected"));
+        }
+        (a, b) => return Err(vec![Failure::new("C22|op|acceptance-differs", format!("rewards on accepted={}, rewards off accepted={}", a.is_ok(), b.is_ok()))]),
+    };
+    ensure!(s1 == s2, "C22|harness", "spec mismatch");
+    ensure!(on.result == off.result, "C22|op|result-differs", "result with rewards {:?}, without {:?}", on.result, off.result);
+    let mut post_on = pre.clone();
+    apply_state(&mut post_on, &on.state, true);
+    let mut post_off = pre.clone();
+    apply_state(&mut post_off, &off.state, true);
+    let coinbase = ra(&block.coinbase);
+    let sender = ra(&tx.caller);
+    let parties = [coinbase, BASE_VAULT, L1_VAULT, OP_VAULT];
+    let rebuild = c.steps.iter().find_map(|s| match s {
+        OpReconf::WithSpecId(_) => Some("with_spec_id"),
+        OpReconf::ModifySpecId(_) => Some("modify_spec_id"),
+        OpReconf::Pop => Some("pop_handle_register"),
+        OpReconf::CreateGeneric => Some("create_handle_generic"),
+        _ => None,
+    });
+    let is_deposit = matches!(c.case.kind, Kind::Deposit { .. });
+    let to = tx.to.as_ref().map(ra);
+    // which parties does the execution itself move value to/from?  (recorded on a plain rewards-on run)
+    let probe = run_op(&c.case);
+    let untouched = parties.iter().all(|p| !probe.rec.flow_addrs.contains(p)) && !parties.contains(&sender) && to.map(|t| !parties.contains(&t)).unwrap_or(true) && probe.rec.ops[0xff] == 0;
+    let mut paid_on = BigUint::zero();
+    for p in &parties {
+        let (b_pre, b_on, b_off) = (bal(&pre, p), bal(&post_on, p), bal(&post_off, p));
+        if untouched {
+            // no value flow names this party: without rewards its balance must not move at all
+            ensure!(
+                b_off == b_pre,
+                format!("C22|op|fees-paid-although-disabled|{}", rebuild.unwrap_or("no-rebuild")),
+                "without rewards {p} went from {b_pre} to {b_off} (with rewards: {b_on}) [steps {:?}]",
+                c.steps
+            );
+        } else {
+            ensure!(b_off <= b_on, "C22|op|party-richer-without-rewards", "{p} ends with {b_off} without rewards but {b_on} with rewards");
+        }
+        if b_on > b_off {
+            paid_on += &b_on - &b_off;
+        }
+    }
+    if !parties.contains(&sender) {
+        ensure!(bal(&post_on, &sender) == bal(&post_off, &sender), "C22|op|sender-differs", "sender balance differs between rewards on ({}) and off ({})", bal(&post_on, &sender), bal(&post_off, &sender));
+    }
+    for a in post_on.keys().chain(post_off.keys()) {
+        let aa = ra(a);
+        if parties.contains(&aa) {
+            continue;
+        }
+        ensure!(post_on.get(a) == post_off.get(a), "C22|op|other-account-differs", "account {} differs between rewards on/off", hex::encode(a));
+    }
+    let gas_paid = !is_deposit && !paid_on.is_zero();
+    Ok(Outcome::new(rebuild.is_some() && gas_paid && untouched).label_if(rebuild.is_some(), "rebuilding-step").label_if(gas_paid, "fees>0").label_if(is_deposit, "deposit").label_if(untouched, "parties-untouched-by-flows"))
+}
+
+pub fn c22_op(ctx: &mut Ctx) {
+    let n = ctx.tier.pick(30_000, 1_000_000);
+    ctx.run_cases(
+        "op-reward-switch",
+        "Optimism: Handler::optimism_with_spec(spec, false) followed by a random reconfiguration sequence (with_spec_id / modify_spec_id within the same L1 rule set, append no-op / inspector register, pop of appended registers, create_handle_generic, modify().build()), then an Optimism world transaction (regular or deposit); oracle: differential against rewards enabled: result identical, sender and every other account identical, and beneficiary + base-fee vault + L1-fee vault + operator-fee vault together receive none of the gas fee, L1 fee or operator fee; non-trivial = rebuilding step and a fee-paying transaction",
+        || {
+            let step = prop_oneof![
+                2 => any::<u8>().prop_map(OpReconf::WithSpecId),
+                2 => any::<u8>().prop_map(OpReconf::ModifySpecId),
+                2 => Just(OpReconf::AppendNoop),
+                1 => Just(OpReconf::AppendInspector),
+                2 => Just(OpReconf::Pop),
+                2 => Just(OpReconf::ModifyBuild),
+                1 => Just(OpReconf::CreateGeneric),
+            ];
+            (op_case(), prop::collection::vec(step, 0..4)).prop_map(|(mut case, steps)| {
+                case.second = None;
+                OpRewardCase { case, steps }
+            })
+        },
+        n,
+        c22_op_case,
+    );
+    ctx.expect_labels("op-reward-switch", &["rebuilding-step", "fees>0", "deposit"]);
+}
